@@ -233,11 +233,11 @@ def _solve_one(payload):
     raise NotImplementedError
 
 
-def discharge(obls, timeout_ms=20000):
+def discharge(obls, timeout_ms=20000, retry=False):
     """discharge obligations in-process (z3 objects are not picklable; each obligation is
     small, so sequential discharge is fast; thorough tier re-checks with cvc5)."""
     for ob in obls:
-        st, solver, dt, model, lem = prove(ob.hyps, ob.goal, timeout_ms=timeout_ms)
+        st, solver, dt, model, lem = prove(ob.hyps, ob.goal, timeout_ms=timeout_ms, scale=3 if retry else 1)
         ob.status, ob.solver, ob.time_s = st, solver, dt
         ob.meta["lemmas"] = lem
         if model is not None:
@@ -273,7 +273,11 @@ def ob_to_json(ob, with_smt=False):
     if "mentions" in ob.meta:
         d["mentions"] = ob.meta["mentions"]
     if with_smt:
-        d["goal"] = str(ob.goal)[:600] if ob.status != "proved" or ob.time_s < 0.5 else "(large goal, proved)"
+        z3.set_option(max_args=6, max_lines=12, max_depth=7, max_visited=400)
+        try:
+            d["goal"] = str(ob.goal)[:600]
+        except Exception:
+            d["goal"] = "(unprintable)"
         d["n_hyps"] = len(ob.hyps)
     if ob.status == "refuted":
         d["model"] = model_summary(ob.model)
